@@ -13,30 +13,35 @@ open Flatland.C05 Flatland.C05.Spec
 theorem norecurse_log_refines (i : Info) : (validateNoRecurse i).log = (specNoRecurse i).log := by
   simp [validateNoRecurse, specNoRecurse, noRecurseLog, validateDown_eq, validateUp_eq]
 
-theorem validAfterDown_eq (r : Ret) :
-    validAfterDown r = (match r with | .uneval => Valid.uneval | d => .ofBool d.truthy) := by
-  cases r <;> rfl
+/-- **`validate(recurse=False)` = the documented statement**, for every element: the element ends with (and the call
+    returns) its OWN verdict by the rules of the full algorithm; exact invocation log -/
+theorem validate_norecurse_refines (i : Info) : validateNoRecurse i = specNoRecurse i := by
+  simp only [validateNoRecurse, specNoRecurse, noRecurseLog, validateDown_eq, validateUp_eq, validAfter_eq]
 
-/-- **`validate(recurse=False)` as written** = descent then ascent on the one element, the LAST phase that
-    evaluates deciding `.valid` and the return value; exact invocation log.  For every element. -/
-theorem validate_norecurse_refines (i : Info) :
-    validateNoRecurse i = { valid := lastPhaseVerdict i, log := noRecurseLog i } := by
-  have hl := norecurse_log_refines i
-  simp only [specNoRecurse] at hl
-  have hv : (validateNoRecurse i).valid = lastPhaseVerdict i := by
-    simp only [validateNoRecurse, lastPhaseVerdict, validateDown_eq, validateUp_eq]
-    cases (upVerdict i).1 <;> cases (downVerdict i).1 <;> rfl
-  cases h : validateNoRecurse i with
-  | mk v l => rw [h] at hv hl; simp only at hv hl; rw [hv, hl]
+/-- the documented statement, as a proposition about a candidate implementation of the branch -/
+def NoRecurseSpec (impl : Info → NoRec) : Prop := ∀ i : Info, impl i = specNoRecurse i
 
-/-- the documented statement: the element ends with its OWN verdict by the rules of the full algorithm -/
-def NoRecurse_Full : Prop := ∀ i : Info, validateNoRecurse i = specNoRecurse i
+def NoRecurse_Full : Prop := NoRecurseSpec validateNoRecurse
 
-/-- … holds whenever the two phases do not contradict each other (descent passed, or ascent did not pass, or
-    the element does not ascend) -/
-theorem validate_norecurse_refines_partial (i : Info) (h : phasesAgree i = true) :
-    validateNoRecurse i = specNoRecurse i := by
-  rw [validate_norecurse_refines]
+theorem norecurse_full : NoRecurse_Full := validate_norecurse_refines
+
+/-- **`recurse=False` is `validate()` on the element alone** (the one-element tree), unconditionally -/
+theorem norecurse_eq_single (i : Info) :
+    (validateNoRecurse i).valid.truthy = (validate (.node i [])).ret := by
+  rw [validate_norecurse_refines, validate_refines]
+  simp [specNoRecurse, specValidate, expectedRet, visited, prune, pruneL, levelOrder, VTree.info, VTree.kids]
+
+/-! #### the code before repair 10acb0e, as a counter-model (regression witness of KF-C05-a) -/
+
+theorem old_norecurse_refines (i : Info) :
+    oldValidateNoRecurse i = { valid := lastPhaseVerdict i, log := noRecurseLog i } := by
+  simp only [oldValidateNoRecurse, noRecurseLog, validateDown_eq, validateUp_eq, lastPhaseVerdict]
+  cases (upVerdict i).1 <;> cases (downVerdict i).1 <;> rfl
+
+/-- the old code met the documented statement exactly where the phases do not contradict each other -/
+theorem old_norecurse_refines_partial (i : Info) (h : phasesAgree i = true) :
+    oldValidateNoRecurse i = specNoRecurse i := by
+  rw [old_norecurse_refines]
   simp only [specNoRecurse]
   congr 1
   simp only [phasesAgree] at h
@@ -47,30 +52,26 @@ theorem validate_norecurse_refines_partial (i : Info) (h : phasesAgree i = true)
 /-- a container whose descent list fails and whose ascent list passes -/
 def exOverride : Info := ⟨0, true, false, false, [.fls], [.tru]⟩
 
-/-- … and is FALSE of the code as it is: the ascent result replaces a failed descent result
-    (`self.valid = bool(up)` without the `elif element.valid:` guard of the loop) — finding KF-C05-a -/
-theorem norecurse_full_fails : ¬ NoRecurse_Full := by
+/-- … and violated it in general: the ascent result replaced a failed descent result -/
+theorem oldNoRecurse_fails : ¬ NoRecurseSpec oldValidateNoRecurse := by
   intro h
   have := congrArg NoRec.valid (h exOverride)
-  simp [validateNoRecurse, specNoRecurse, exOverride, validateDown, validateUp, validateElement, runValidators,
+  simp [oldValidateNoRecurse, specNoRecurse, exOverride, validateDown, validateUp, validateElement, runValidators,
     verdict, downVerdict, upVerdict, elementVerdict, listVerdict, Ret.truthy, Valid.ofBool] at this
 
-/-- the same element through the full algorithm (a one-element tree) is invalid: the two entry points disagree -/
-example : (validateNoRecurse exOverride).valid = .tru ∧ (validate (.node exOverride [])).ret = false := by
-  constructor
-  · simp [validateNoRecurse, exOverride, validateDown, validateUp, validateElement, runValidators,
+/-- the witness through the repaired branch, the old branch and the full algorithm -/
+example : (validateNoRecurse exOverride).valid = .fls ∧ (oldValidateNoRecurse exOverride).valid = .tru ∧
+    (validate (.node exOverride [])).ret = false := by
+  refine ⟨?_, ?_, ?_⟩
+  · simp [validateNoRecurse, exOverride, validateDown, validateUp, validateElement, runValidators, validAfterDown,
+      validAfterUp, Ret.truthy, Valid.truthy, Valid.ofBool]
+  · simp [oldValidateNoRecurse, exOverride, validateDown, validateUp, validateElement, runValidators,
       Ret.truthy, Valid.ofBool]
   · simp [validate, exOverride, descend, validateDown, validateUp, validateElement, runValidators,
       Ret.isSkipAll, accDown, accUp, validAfterDown, Ret.truthy, Valid.truthy, Valid.ofBool]
 
 example : phasesAgree ⟨0, true, false, false, [.tru, .skip, .fls], [.tru, .none]⟩ = true := by
   simp [phasesAgree, downVerdict, upVerdict, elementVerdict, listVerdict, Ret.truthy]
-
-/-- under `phasesAgree` the return value of `recurse=False` is the full algorithm's on the element alone -/
-theorem norecurse_eq_single (i : Info) (h : phasesAgree i = true) :
-    (validateNoRecurse i).valid.truthy = (validate (.node i [])).ret := by
-  rw [validate_norecurse_refines_partial i h, validate_refines]
-  simp [specNoRecurse, specValidate, expectedRet, visited, prune, pruneL, levelOrder, VTree.info, VTree.kids]
 
 theorem listVerdict_ne_uneval (vs : List Outcome) : listVerdict vs ≠ .uneval := by
   induction vs with
@@ -91,7 +92,7 @@ theorem ofBool_ne_uneval (b : Bool) : Valid.ofBool b ≠ .uneval := by cases b <
     its ascent, any other element always evaluates its descent -/
 theorem norecurse_ret_is_bool (i : Info) : (validateNoRecurse i).valid ≠ .uneval := by
   rw [validate_norecurse_refines]
-  simp only [lastPhaseVerdict]
+  simp only [specNoRecurse, verdict]
   cases hc : i.container
   · have hu : (upVerdict i).1 = .uneval := by simp [upVerdict, hc]
     have hd : (downVerdict i).1 ≠ .uneval := by
@@ -100,7 +101,7 @@ theorem norecurse_ret_is_bool (i : Info) : (validateNoRecurse i).valid ≠ .unev
     cases h : (downVerdict i).1 <;> simp_all [ofBool_ne_uneval]
   · have hu : (upVerdict i).1 ≠ .uneval := by
       simp only [upVerdict, hc]; exact elementVerdict_ne_uneval _ _
-    cases h : (upVerdict i).1 <;> simp_all [ofBool_ne_uneval]
+    cases h : (upVerdict i).1 <;> cases h' : (downVerdict i).1 <;> simp_all [ofBool_ne_uneval]
 
 /-- **No other element's `.valid` is touched**, children in particular (the tree's elements are distinct) -/
 theorem norecurse_children_untouched (prev : Nat → Valid) (i : Info) (kids : List VTree)
